@@ -62,7 +62,7 @@ func exhaustivePair(k int) (m, n int) {
 
 func runFees(f *hx.Flags, o *hx.Out) {
 	corpus := feesCorpus()
-	nRandom := f.N(520, 12000)
+	nRandom := f.N(1400, 12000)
 	total := nExhaustive + len(corpus) + nRandom
 	for k := 0; k < total; k++ {
 		if !f.Want(k) {
@@ -163,7 +163,7 @@ func feesCorpus() []func(o *hx.Out, k int, r *prng.R) {
 	c = append(c, func(o *hx.Out, k int, r *prng.R) { doSig(o, k, r, keyPool[0]) })
 	// boundaries of emit.Int(n): 16/17 (PUSH16 -> PUSHINT8), 127/128 (PUSHINT8 -> PUSHINT16), the maximum 1024,
 	// and the evaluation stack limit m+n+2 = 2048.
-	for _, mn := range [][2]int{{1, 17}, {17, 17}, {16, 127}, {127, 127}, {1, 128}, {128, 128}, {3, 200}, {1, 1024}, {1022, 1024}, {1023, 1023}, {1023, 1024}, {1024, 1024}} {
+	for _, mn := range [][2]int{{1, 17}, {17, 17}, {16, 127}, {127, 127}, {1, 128}, {128, 128}, {3, 152}, {3, 153}, {3, 200}, {1, 1024}, {1022, 1024}, {1023, 1023}, {1023, 1024}, {1024, 1024}} {
 		mn := mn
 		c = append(c, func(o *hx.Out, k int, r *prng.R) { doMultisig(o, k, r, mn[0], keyPool[:mn[1]]) })
 	}
